@@ -123,24 +123,26 @@ def replay_reload(prop):
     return replay(prop, REPLAY_RELOAD)
 
 REPLAY_RESTRICT = r'''
-/* On the real library (AddressSanitizer): a Global / Fourier grid under construction with stored points is copied with an output sub-range; the copy finishes its construction and must reproduce its output. */
+/* On the real library (AddressSanitizer): a grid of each family under construction with stored points is copied with an output sub-range; the copy finishes its construction and must reproduce its output. */
 int main_replay(){
   using namespace TasGrid;
   int bad = 0;
-  for (int fam = 0; fam < 2; fam++) {
-    TasmanianSparseGrid g = fam == 0 ? makeGlobalGrid(2, 3, 1, type_level, rule_clenshawcurtis) : makeFourierGrid(2, 3, 1, type_level);
+  const char *names[5] = {"Global", "Fourier", "Sequence", "LocalPolynomial", "Wavelet"};
+  for (int fam = 0; fam < 5; fam++) {
+    TasmanianSparseGrid g = fam == 0 ? makeGlobalGrid(2, 3, 1, type_level, rule_clenshawcurtis) : fam == 1 ? makeFourierGrid(2, 3, 1, type_level) : fam == 2 ? makeSequenceGrid(2, 3, 1, type_level, rule_leja)
+                          : fam == 3 ? makeLocalPolynomialGrid(2, 3, 1, 1, rule_localp) : makeWaveletGrid(2, 3, 1, 1);
     auto f = [](double a, double b, int k)->double{ return std::exp(a + 0.5 * b) * (k + 1) + k; };
-    { std::vector<double> p = g.getNeededPoints(), v(3 * g.getNumNeeded()); for (int i = 0; i < g.getNumNeeded(); i++) for (int k = 0; k < 3; k++) v[3*i+k] = f(p[2*i], p[2*i+1], k); g.loadNeededValues(v); }
+    /* nothing is loaded before the construction starts; every candidate but the first (the root) arrives, so the samples wait in the construction data */
     g.beginConstruction();
-    std::vector<double> c = g.getCandidateConstructionPoints(type_level, 0); int n = (int) c.size() / 2;
-    for (int i = 0; i + 1 < n; i++) g.loadConstructedPoints(std::vector<double>{c[2*i], c[2*i+1]}, std::vector<double>{f(c[2*i], c[2*i+1], 0), f(c[2*i], c[2*i+1], 1), f(c[2*i], c[2*i+1], 2)});
+    std::vector<double> c = fam < 3 ? g.getCandidateConstructionPoints(type_level, 0) : g.getCandidateConstructionPoints(1.E-6, refine_classic); int n = (int) c.size() / 2;
+    for (int i = n - 1; i >= 1; i--) g.loadConstructedPoints(std::vector<double>{c[2*i], c[2*i+1]}, std::vector<double>{f(c[2*i], c[2*i+1], 0), f(c[2*i], c[2*i+1], 1), f(c[2*i], c[2*i+1], 2)});
     TasmanianSparseGrid h; h.copyGrid(&g, 1, 2);
-    std::vector<double> c2 = h.getCandidateConstructionPoints(type_level, 0);
+    std::vector<double> c2 = fam < 3 ? h.getCandidateConstructionPoints(type_level, 0) : h.getCandidateConstructionPoints(1.E-6, refine_classic);
     for (size_t i = 0; i < c2.size() / 2; i++) h.loadConstructedPoints(std::vector<double>{c2[2*i], c2[2*i+1]}, std::vector<double>{f(c2[2*i], c2[2*i+1], 1)});
     h.finishConstruction();
     std::vector<double> p = h.getLoadedPoints(); int miss = 0;
     for (int i = 0; i < h.getNumLoaded(); i++) { double y; h.evaluate(&p[2*i], &y); if (!(std::abs(y - f(p[2*i], p[2*i+1], 1)) < 1.E-9)) miss++; }
-    if (miss || h.getNumOutputs() != 1) { std::printf("%s: the restricted copy has %d outputs, %d of %d loaded points do not reproduce the copied output\n", fam ? "Fourier" : "Global", h.getNumOutputs(), miss, h.getNumLoaded()); bad++; }
+    if (miss || h.getNumOutputs() != 1) { std::printf("%s: the restricted copy has %d outputs, %d of %d loaded points do not reproduce the copied output\n", names[fam], h.getNumOutputs(), miss, h.getNumLoaded()); bad++; }
   }
   __CPROVER_assert(bad == 0, "C11 an output-restricted copy of a grid under construction is a working, independent grid");
   return 0;
@@ -189,14 +191,18 @@ def jobs(tier, seed, prop):
                        assumed=["std::forward_list semantics as in the shim (rule R5fl)", "tensor weights are not NaN"],
                        label="clearTesnors drops every non-initial tensor and keeps the initial ones in order"))
     if prop == "C11":
-        R = X.Rules()
-        t, info = dyncon.emit_restrict(R)
         t3 = [t_ for k, a, t_ in cf.sections if k == "text3"][0]
-        out.append(Job("dyncon.restrictData", pre + t3 + t + cf.text(("harness",), ["h_restrictData"]), "h_restrictData", unwind=nl + 3, timeout=300,
-                       functions=["%s:%d %s" % (f["file"], f["line"], f["name"]) for f in info["functions"]], info=info, replay=replay(prop, REPLAY_RESTRICT),
-                       bounded="at most %d stored nodes (full unwinding with unwinding assertions)" % nl,
-                       assumed=["std::forward_list semantics as in the shim (rule R5fl); value vectors are ghost descriptors (identity, length)"],
-                       label="restrictData: the output-restricted copy of the construction data keeps the class invariant (values per node == num_outputs)"))
+        for owner in ("class DynamicConstructorDataGlobal", "struct SimpleConstructData"):
+            R = X.Rules()
+            t, info = dyncon.emit_restrict(R, owner)
+            cname = owner.split()[1]
+            simple = cname == "SimpleConstructData"
+            defs = "#define GTYPE %s\n#define RESTRICT %s_restrictData\n%s" % (cname, cname, "#define TSG_SIMPLE 1\n" if simple else "")
+            out.append(Job("dyncon.restrictData" + (".simple" if simple else ""), pre + defs + t3 + t + cf.text(("harness",), ["h_restrictData"]), "h_restrictData", unwind=nl + 3, timeout=300,
+                           functions=["%s:%d %s" % (f["file"], f["line"], f["name"]) for f in info["functions"]], info=info, replay=replay(prop, REPLAY_RESTRICT),
+                           bounded="at most %d stored nodes (full unwinding with unwinding assertions)" % nl,
+                           assumed=["std::forward_list semantics as in the shim (rule R5fl); value vectors are ghost descriptors (identity, length)"],
+                           label="%s::restrictData: every stored value vector is cut to the outputs [ibegin, iend)%s" % (cname, "" if simple else "; the class invariant (values per node == num_outputs) is kept")))
     if prop in ("C17", "C06"):
         R = X.Rules()
         t, info = dyncon.emit_reload(R)
